@@ -42,6 +42,7 @@ def main():
             print(sid, 'PATCH DOES NOT APPLY to current /repo:', out[-300:])
             continue
         caught = {}
+        refused = {}      # checks that refused to decide the patched tree (exit 2): not a VIOLATION, reported separately
         try:
             def one(p):
                 return p, sh('./check %s --no-evidence --quiet --tier %s --scratch %s --repo %s' % (p, tier, scratch, scratch), cwd=VERIF)
@@ -55,16 +56,17 @@ def main():
                 if rc == 1 and lines:
                     caught[p] = [l.strip()[:300] for l in lines][:4]
                 elif rc == 2:
-                    caught[p] = ['ANALYSIS-ERROR: ' + out.strip()[-300:]]
+                    refused[p] = 'ANALYSIS-ERROR: ' + out.strip()[-300:]
         finally:
             sh('rm -rf %s' % scratch)
             sh('rm -f /tmp/replay-C*.json')
         meta['checks_run'] = props
         meta['tier'] = tier
         meta['caught_by'] = caught
+        meta['analysis_error'] = refused
         meta['caught'] = bool(caught)
         json.dump(meta, open(os.path.join(d, 'meta.json'), 'w'), indent=1)
-        print(sid, 'prop', meta['property'], 'CAUGHT by %s' % sorted(caught) if caught else 'MISSED')
+        print(sid, 'prop', meta['property'], 'CAUGHT by %s' % sorted(caught) if caught else ('MISSED' + (' (analysis-error in %s)' % sorted(refused) if refused else '')))
         for p, ls in caught.items():
             for l in ls[:2]:
                 print('    ', p, l[:200])
